@@ -495,11 +495,10 @@ func runTraced(l *layout, bin *binRunner, prog, tag string) tracedRun {
 
 	evs, unparsed := parseStrace(logb)
 	found, probes, judged, startup, unknown, inOK := judgeTrace(l, evs, src)
-	post, _ := l.snapshot()
 
 	tr.stdout = so.String()
 	tr.evs, tr.unparsed, tr.unknown, tr.judged, tr.probes, tr.startup, tr.inArenaOK = len(evs), unparsed, unknown, judged, probes, startup, inOK
-	tr.changed = snapDiff(l.pristineOut, post)
+	tr.changed = l.observe()
 	tr.leaked = l.variant(l.vid).leaked(tr.stdout)
 	tr.found = map[int][]straceFinding{}
 
